@@ -17,12 +17,13 @@ def ws(tier, k=1):
     return QW + ([6, 7, 9, 16, 24, 31, 32, 33, 63, 64, 65] if k <= 2 else [16, 32, 33, 64])
 
 
-def prod(tier, keys, filt=None, extra=None, small=False):
+def prod(tier, keys, filt=None, extra=None, small=False, stretch=True):
     base = ws(tier, len(keys))
     if small and tier == 'quick':
         base = [1, 2, 3, 4, 8]
     out = []
-    for tup in itertools.product(base, repeat=len(keys)):
+    st = {1: [(130,)], 2: [(1, 130), (3, 131), (130, 1)], 3: [(1, 1, 130), (8, 8, 73)]}.get(len(keys), []) if stretch else []
+    for tup in list(itertools.product(base, repeat=len(keys))) + st:
         d = dict(zip(keys, tup))
         for e in (extra or [{}]):
             dd = dict(d); dd.update(e)
@@ -136,19 +137,19 @@ block('Abs', props=('C07',), file='py4hw/logic/arithmetic.py', make=_mk_abs, spe
 block('SignedDiv', props=('C07',), file='py4hw/logic/arithmetic.py', make=_mk2(A.SignedDiv),
       requires=lambda c, I: [ne(I['b'], 0)],
       spec=lambda c, I, W: {'r': truncdiv(sx(I['a'], c['a']), sx(I['b'], c['b']))},
-      cfgs=lambda t: prod(t, ['a', 'b', 'r'], small=True))
+      cfgs=lambda t: prod(t, ['a', 'b', 'r'], small=True, stretch=False))
 
 # single-leaf blocks at block level (constructor + leaf contract; statement-level reading)
 block('Sub', props=('C07',), file='py4hw/logic/arithmetic.py', make=_mk2(A.Sub),
       spec=lambda c, I, W: {'r': sub(I['a'], I['b'])}, cfgs=lambda t: prod(t, ['a', 'b', 'r'], small=True))
 block('Mul', props=('C07',), file='py4hw/logic/arithmetic.py', make=_mk2(A.Mul),
-      spec=lambda c, I, W: {'r': mul(I['a'], I['b'])}, cfgs=lambda t: prod(t, ['a', 'b', 'r'], small=True))
+      spec=lambda c, I, W: {'r': mul(I['a'], I['b'])}, cfgs=lambda t: prod(t, ['a', 'b', 'r'], small=True, stretch=False))
 block('SignedMul', props=('C07',), file='py4hw/logic/arithmetic.py', make=_mk2(A.SignedMul),
-      spec=lambda c, I, W: {'r': mul(sx(I['a'], c['a']), sx(I['b'], c['b']))}, cfgs=lambda t: prod(t, ['a', 'b', 'r'], small=True))
+      spec=lambda c, I, W: {'r': mul(sx(I['a'], c['a']), sx(I['b'], c['b']))}, cfgs=lambda t: prod(t, ['a', 'b', 'r'], small=True, stretch=False))
 block('Div', props=('C07',), file='py4hw/logic/arithmetic.py', make=_mk2(A.Div), requires=lambda c, I: [ne(I['b'], 0)],
-      spec=lambda c, I, W: {'r': fdiv(I['a'], I['b'])}, cfgs=lambda t: prod(t, ['a', 'b', 'r'], small=True))
+      spec=lambda c, I, W: {'r': fdiv(I['a'], I['b'])}, cfgs=lambda t: prod(t, ['a', 'b', 'r'], small=True, stretch=False))
 block('Mod', props=('C07',), file='py4hw/logic/arithmetic.py', make=_mk2(A.Mod), requires=lambda c, I: [ne(I['b'], 0)],
-      spec=lambda c, I, W: {'r': mod(I['a'], I['b'])}, cfgs=lambda t: prod(t, ['a', 'b', 'r'], small=True))
+      spec=lambda c, I, W: {'r': mod(I['a'], I['b'])}, cfgs=lambda t: prod(t, ['a', 'b', 'r'], small=True, stretch=False))
 block('SignExtend', props=('C07',), file='py4hw/logic/arithmetic.py', make=_mk1(A.SignExtend),
       spec=lambda c, I, W: {'r': sx(I['a'], c['a'])}, cfgs=lambda t: prod(t, ['a', 'r']))
 block('ZeroExtend', props=('C07',), file='py4hw/logic/arithmetic.py', make=_mk1(A.ZeroExtend),
